@@ -226,6 +226,27 @@ def run(A, R: Report, thorough: bool):
                     R.check(ok, 'R04.7', f'{f.short}: `self._data = None`', key_of('memo-dropped', f.short), 'legitimate reset site',
                             f'`{f.short}` drops the in-memory result: a later request from the same object runs the task again (in-memory tasks) or reloads needlessly', where=where(f, node))
 
+    # ---- R04.8 the readable-name helper removes symbolic links only (never a stored result, which would be computed again)
+    R.rule('R04.8', 'create_readable_filenames / _create_softlink_to_task_data unlink a path only after is_symlink() of that very path', floor=1)
+    n8 = 0
+    for fname in ('Chain.create_readable_filenames', 'Chain._create_softlink_to_task_data'):
+        f8 = A.prog.find_func(fname)
+        if f8 is None:
+            continue
+        cfg8 = A.cfg(f8, inline=False)
+        for n in A.typer.own_nodes(f8):
+            if isinstance(n, ast.Call) and isinstance(n.func, ast.Attribute) and n.func.attr in ('unlink', 'rmdir') or (isinstance(n, ast.Call) and src(n.func) in ('os.remove', 'os.unlink', 'shutil.rmtree')):
+                n8 += 1
+                victim = src(n.func.value) if isinstance(n.func, ast.Attribute) and n.func.attr in ('unlink', 'rmdir') else (src(n.args[0]) if n.args else '?')
+                gates = [e.id for e in cfg8.nodes.values() if e.kind == 'edge' and e.label == 'T' and isinstance(e.ast, ast.Call) and isinstance(e.ast.func, ast.Attribute) and e.ast.func.attr == 'is_symlink' and src(e.ast.func.value) == victim]
+                targets = [cn.id for cn in cfg_nodes_for(cfg8, n)]
+                p8 = cfg8.find_path([cfg8.entry.id], targets, avoid=gates, no_exc_from=list(cfg8.nodes)) if targets else None
+                R.check(bool(gates) and p8 is None, 'R04.8', f'{f8.short}: `{src(n)[:50]}`', key_of('unlink-guard', f8.short, victim, bool(gates) and p8 is None), f'`{victim}` is removed only when it is a symbolic link',
+                        f'`{src(n)[:60]}` can remove a path that is not a symbolic link: when the readable name coincides with the data file name the stored result is deleted and the next request runs the task again',
+                        witness=cfg8.describe_path(p8) if p8 else None, where=where(f8, n))
+    if n8 == 0:
+        R.ok('R04.8', 'Chain.create_readable_filenames', 'nothing is removed', where='src/taskchain/chain.py')
+
 
 def check_registry_reuse(A, R: Report, rid: str):
     """Value term of Chain._create_task by cases: registry given and key present -> the registered object; key absent
